@@ -51,6 +51,7 @@ type C09Case struct {
 	KSeeds    []int      `json:"k_seeds"` // extra prefix lengths (mod write size)
 	Only      *FaultSpec `json:"only,omitempty"`
 	TmpMount  bool       `json:"tmp_is_own_filesystem,omitempty"` // /tmp on a tmpfs: renames from there into $HOME fail with EXDEV
+	Sched     []uint16   `json:"sched,omitempty"`                 // schedule vector of every process of the case
 }
 
 func genC09(rt *rapid.T) C09Case {
@@ -74,6 +75,9 @@ func genC09(rt *rapid.T) C09Case {
 	c.Target.HasDesc = rapid.Bool().Draw(rt, "hasdesc")
 	c.KSeeds = rapid.SliceOfN(rapid.IntRange(0, 100000), 8, 8).Draw(rt, "kseeds")
 	c.TmpMount = rapid.Bool().Draw(rt, "tmpmount")
+	if rapid.Bool().Draw(rt, "hassched") {
+		c.Sched = genSchedule(rt, 40)
+	}
 	return c
 }
 
@@ -82,6 +86,7 @@ func quoteS(s string) string { return fmt.Sprintf("%q", s) }
 // preState builds the disk before the target step.
 func (c *C09Case) preState() *pworld {
 	w := newPWorld()
+	w.sched = c.Sched
 	if c.TmpMount {
 		w.disk.Mounts = []string{"/tmp"}
 	}
@@ -392,7 +397,7 @@ func runC09(c C09Case) *Outcome {
 	// 4. the states a fault can leave behind are the old and the new one: the next search must work from both
 	if c.Only == nil {
 		for _, st := range []*simos.Disk{w.disk, ref.Disk} {
-			w2 := &pworld{disk: st.Clone(), clockNS: w.clockNS + int64(time.Hour)}
+			w2 := &pworld{disk: st.Clone(), clockNS: w.clockNS + int64(time.Hour), sched: w.sched}
 			r2, err := w2.probe(argsOf("search", "--all-platforms", "-d", pMainDB, "list files"), nil, "after")
 			if err != nil {
 				o.Harness = err.Error()
@@ -552,7 +557,7 @@ func (c *C09Case) followUp(w *pworld, res *NodeResult, tag string, spec FaultSpe
 		done.WriteRaw(pHistory, []byte(newH), 0o644)
 	}
 	steps := [][]string{{"save", "--", "zz", "s"}, {"search", "--all-platforms", "-d", pMainDB, "zz"}}
-	worlds := []*pworld{{disk: res.Disk.Clone(), clockNS: w.clockNS + int64(time.Hour)}, {disk: clean, clockNS: w.clockNS + int64(time.Hour)}, {disk: done, clockNS: w.clockNS + int64(time.Hour)}}
+	worlds := []*pworld{{disk: res.Disk.Clone(), clockNS: w.clockNS + int64(time.Hour), sched: w.sched}, {disk: clean, clockNS: w.clockNS + int64(time.Hour), sched: w.sched}, {disk: done, clockNS: w.clockNS + int64(time.Hour), sched: w.sched}}
 	for _, args := range steps {
 		for wi, pw := range worlds {
 			r, e := pw.run(argsOf(args...), nil, nil, tag+string(rune('a'+wi)))
